@@ -91,6 +91,59 @@ enum Cmd {
     Exit,
     /// exit, and make this call from the caller's thread-local destructor while exiting
     ExitCall(Op),
+    /// make this call from a destructor that runs while the worker unwinds from its own panic
+    UnwindCall(Op),
+}
+
+/// The caller's own guard object: its destructor runs during unwinding and calls the library.
+struct UnwindGuard<'a> {
+    op: &'a Op,
+    arena: &'a mut Arena,
+    slot: &'a mut Option<OpResult>,
+    was_panicking: &'a mut bool,
+}
+
+impl Drop for UnwindGuard<'_> {
+    fn drop(&mut self) {
+        *self.was_panicking = std::thread::panicking();
+        let op = self.op;
+        let arena = &mut *self.arena;
+        let r = std::panic::catch_unwind(std::panic::AssertUnwindSafe(|| exec(op, arena)));
+        *self.slot = Some(match r {
+            Ok(r) => r,
+            Err(_) => {
+                let mut o = OpResult::default();
+                o.caught_panic = true;
+                o.record = "panic".into();
+                o.violations.push(Violation {
+                    prop: "C10",
+                    msg: "the call panicked outside the library's documented panic points while the thread was unwinding".into(),
+                    tag: "",
+                });
+                o
+            },
+        });
+    }
+}
+
+struct CallerPanic;
+
+fn exec_unwinding(op: &Op, arena: &mut Arena) -> OpResult {
+    let mut slot = None;
+    let mut was_panicking = false;
+    let r = std::panic::catch_unwind(std::panic::AssertUnwindSafe(|| {
+        let _g = UnwindGuard {
+            op,
+            arena,
+            slot: &mut slot,
+            was_panicking: &mut was_panicking,
+        };
+        std::panic::panic_any(CallerPanic);
+    }));
+    if r.is_ok() || !was_panicking {
+        panic!("HARNESS: the unwinding call was not made while unwinding");
+    }
+    slot.expect("HARNESS: the unwinding call left no result")
 }
 
 /// The caller's own per-thread object with a destructor ("flush my stats when the thread ends").
@@ -138,7 +191,12 @@ struct Worker {
 fn spawn_worker() -> Worker {
     let (tx, crx) = channel::<Cmd>();
     let (rtx, rx) = channel::<OpResult>();
-    let handle = std::thread::spawn(move || {
+    let mut b = std::thread::Builder::new();
+    let kb = ops::SMALL_STACK_KB.load(std::sync::atomic::Ordering::Relaxed);
+    if kb != 0 {
+        b = b.stack_size(kb * 1024);
+    }
+    let handle = b.spawn(move || {
         EXIT_HOOK.with(|h| h.borrow_mut().job = None); // first touch: before any library call
         let mut arena = Arena::new();
         while let Ok(cmd) = crx.recv() {
@@ -160,10 +218,17 @@ fn spawn_worker() -> Worker {
                         break;
                     }
                 },
+                Cmd::UnwindCall(op) => {
+                    let r = exec_unwinding(&op, &mut arena);
+                    if rtx.send(r).is_err() {
+                        break;
+                    }
+                },
                 Cmd::Exit => break,
             }
         }
-    });
+    })
+    .expect("HARNESS: cannot spawn a worker");
     Worker {
         tx,
         rx,
@@ -353,6 +418,10 @@ fn run_gated(events: &[Event], keep_records: bool) -> Report {
             | Event::ExitCall {
                 t,
                 ..
+            }
+            | Event::UnwindCall {
+                t,
+                ..
             } => *t,
         })
         .max()
@@ -415,6 +484,69 @@ fn run_gated(events: &[Event], keep_records: bool) -> Report {
                         tag: String::new(),
                         enc: op.encode(),
                     }),
+                }
+            },
+            Event::UnwindCall {
+                t,
+                op,
+            } => {
+                let w = workers[*t].get_or_insert_with(spawn_worker);
+                w.tx.send(Cmd::UnwindCall(op.clone())).expect("HARNESS: worker gone");
+                *stats.faults.entry("call_during_unwinding").or_insert(0) += 1;
+                fnv(&mut stats.sched_hash, &[0xfb, *t as u8]);
+                match w.rx.recv() {
+                    Ok(res) => {
+                        account(&mut stats, op, &res);
+                        // the same call made elsewhere in the run, unwinding or not, has the same answer
+                        let enc = op.encode();
+                        match first_answer.get(&enc) {
+                            None => {
+                                first_answer.insert(enc.clone(), (i, res.record.clone()));
+                            },
+                            Some((j, rec)) => {
+                                stats.repeated_calls += 1;
+                                if *rec != res.record {
+                                    for prop in repeat_props(op) {
+                                        found.push(Found {
+                                            index: i,
+                                            thread: *t,
+                                            prop: prop.to_string(),
+                                            msg: format!(
+                                                "the same call returned \"{}\" at event {} and \"{}\" at event {} of this run (made from a destructor while the thread was unwinding)",
+                                                rec, j, res.record, i
+                                            ),
+                                            op: op.describe(),
+                                            tag: String::new(),
+                                            enc: enc.clone(),
+                                        });
+                                    }
+                                }
+                            },
+                        }
+                        for v in res.violations {
+                            found.push(Found {
+                                index: i,
+                                thread: *t,
+                                prop: v.prop.to_string(),
+                                msg: format!("(call made from a destructor while the thread was unwinding from the caller's own panic) {}", v.msg),
+                                op: op.describe(),
+                                tag: v.tag.to_string(),
+                                enc: op.encode(),
+                            });
+                        }
+                    },
+                    Err(_) => {
+                        found.push(Found {
+                            index: i,
+                            thread: *t,
+                            prop: "C10".into(),
+                            msg: "worker thread died during a call made while unwinding".into(),
+                            op: op.describe(),
+                            tag: String::new(),
+                            enc: op.encode(),
+                        });
+                        workers[*t] = None;
+                    },
                 }
             },
             Event::Poison {
@@ -654,7 +786,7 @@ fn emit(mode: &str, seed: u64, focus: &str, rep: &Report, trace: Option<&[String
         None => "null".to_string(),
     };
     println!(
-        "{{\"mode\":{},\"variant\":{},\"seed\":{},\"focus\":{},\"events\":{},\"threads\":{},\"ops\":{},\"faults\":{},\"thread_switches\":{},\"first_uses\":{},\"contended_first_uses\":{},\"repeated_calls\":{},\"alloc_faults\":{},\"sched_hash\":\"{:016x}\",\"h_parse_and_int\":\"{:016x}\",\"h_float_write\":\"{:016x}\",\"violations\":[{}],\"records\":{},\"trace\":{}}}",
+        "{{\"mode\":{},\"variant\":{},\"seed\":{},\"focus\":{},\"events\":{},\"threads\":{},\"ops\":{},\"faults\":{},\"thread_switches\":{},\"first_uses\":{},\"contended_first_uses\":{},\"repeated_calls\":{},\"alloc_faults\":{},\"swarm\":{},\"sched_hash\":\"{:016x}\",\"h_parse_and_int\":\"{:016x}\",\"h_float_write\":\"{:016x}\",\"violations\":[{}],\"records\":{},\"trace\":{}}}",
         jstr(mode),
         jstr(variant()),
         seed,
@@ -668,6 +800,7 @@ fn emit(mode: &str, seed: u64, focus: &str, rep: &Report, trace: Option<&[String
         rep.stats.contended_first_uses,
         rep.stats.repeated_calls,
         ops::ALLOC_FAULTS.load(std::sync::atomic::Ordering::Relaxed) as u8,
+        jstr(&swarm_header()),
         rep.stats.sched_hash,
         rep.stats.h_parse_and_int,
         rep.stats.h_float_write,
@@ -691,6 +824,15 @@ fn emit(mode: &str, seed: u64, focus: &str, rep: &Report, trace: Option<&[String
     }
 }
 
+/// Run-level fault settings, in the form they take in a replay file's header.
+fn swarm_header() -> String {
+    format!(
+        "alloc_faults={} small_stack_kb={}",
+        ops::ALLOC_FAULTS.load(std::sync::atomic::Ordering::Relaxed) as u8,
+        ops::SMALL_STACK_KB.load(std::sync::atomic::Ordering::Relaxed)
+    )
+}
+
 fn variant() -> &'static str {
     option_env!("LEXSIM_VARIANT").unwrap_or("unknown")
 }
@@ -705,6 +847,7 @@ struct Args {
     lite: bool,
     records: bool,
     file: Option<String>,
+    stack_kb: Option<usize>,
 }
 
 fn parse_args(a: &[String]) -> Args {
@@ -722,6 +865,7 @@ fn parse_args(a: &[String]) -> Args {
         lite: false,
         records: false,
         file: None,
+        stack_kb: None,
     };
     let mut i = 0;
     while i < a.len() {
@@ -749,6 +893,11 @@ fn parse_args(a: &[String]) -> Args {
             "--lite" => out.lite = true,
             "--alloc-faults" => ops::ALLOC_FAULTS.store(true, std::sync::atomic::Ordering::Relaxed),
             "--uninit" => ops::UNINIT_BUFFERS.store(true, std::sync::atomic::Ordering::Relaxed),
+            "--stack-kb" => {
+                // development aid: force a worker stack size (0 = the platform default) whatever the swarm says
+                i += 1;
+                out.stack_kb = Some(a[i].parse().expect("HARNESS: bad --stack-kb"));
+            },
             "--records" => out.records = true,
             other if other == "-" || !other.starts_with("--") => out.file = Some(other.to_string()),
             other => {
@@ -838,11 +987,17 @@ fn main() {
             if sw.alloc_faults {
                 ops::ALLOC_FAULTS.store(true, std::sync::atomic::Ordering::Relaxed);
             }
+            if sw.small_stack {
+                ops::SMALL_STACK_KB.store(ops::SMALL_STACK_DEFAULT_KB, std::sync::atomic::Ordering::Relaxed);
+            }
+            if let Some(kb) = args.stack_kb {
+                ops::SMALL_STACK_KB.store(kb, std::sync::atomic::Ordering::Relaxed);
+            }
             let events = gen_history(args.seed, &sw);
             let lines: Vec<String> = events.iter().map(|e| e.encode()).collect();
             if args.print_trace {
                 // run-level fault settings first: they are part of the replay file's header
-                println!("#SWARM alloc_faults={}", sw.alloc_faults as u8);
+                println!("#SWARM {}", swarm_header());
                 for l in &lines {
                     println!("{}", l);
                 }
@@ -865,6 +1020,12 @@ fn main() {
             let (hdr, events) = read_trace(args.file.as_deref().expect("HARNESS: trace file"));
             if hdr.get("alloc_faults").map(|s| s.as_str()) == Some("1") {
                 ops::ALLOC_FAULTS.store(true, std::sync::atomic::Ordering::Relaxed);
+            }
+            if let Some(kb) = hdr.get("small_stack_kb").and_then(|s| s.parse::<usize>().ok()) {
+                ops::SMALL_STACK_KB.store(kb, std::sync::atomic::Ordering::Relaxed);
+            }
+            if let Some(kb) = args.stack_kb {
+                ops::SMALL_STACK_KB.store(kb, std::sync::atomic::Ordering::Relaxed);
             }
             let rep = run_gated(&events, args.records);
             let lines: Vec<String> = events.iter().map(|e| e.encode()).collect();
@@ -958,6 +1119,10 @@ fn main() {
                     | Event::ExitCall {
                         t,
                         ..
+                    }
+                    | Event::UnwindCall {
+                        t,
+                        ..
                     } => *t + 1,
                     _ => 0,
                 })
@@ -970,6 +1135,10 @@ fn main() {
                     op,
                 }
                 | Event::ExitCall {
+                    t,
+                    op,
+                }
+                | Event::UnwindCall {
                     t,
                     op,
                 } = e
